@@ -414,7 +414,10 @@ var c05Ctx = []string{"top", "closure", "seq-map", "par-map", "seq-accept", "par
 	"seq-combine3", "seq-number", "par-map-nested", "groupby", "minmax", "visit", "present", "index-where",
 	// the consumer stops early: the fault is raised on a goroutine that is still finishing its item while
 	// (or after) the evaluation returns - the outcome may be a value or an error, the process has to live
-	"merge-operand-number-early", "merge-operand2-iir-early", "merge-operand-combine-early", "mu-source-early", "par-upstream-number-early"}
+	"merge-operand-number-early", "merge-operand2-iir-early", "merge-operand-combine-early", "mu-source-early", "par-upstream-number-early",
+	// a list that declares an enormous size and fails at one of its first elements while it is materialised:
+	// nothing may be done in proportion to the declared size before the elements exist
+	"huge-sized-map-size", "huge-sized-number-eval", "huge-sized-iir-reverse"}
 
 // boundary operands for operators, static functions and methods: "all (operator, operand-type
 // pair, boundary value) combinations". The oracle for this class is only: no crash, no hang.
@@ -571,6 +574,9 @@ func genC05(r *rng, tier string) *Case {
 	if ctx == "merge-less" {
 		k = 0 // the less function only sees p while both lists still have elements: trigger on the first call
 	}
+	if strings.HasPrefix(ctx, "huge-sized-") {
+		k = pick(r, 1, 2, 3) // the fault has to come before anything of that size is built
+	}
 	if strings.HasSuffix(ctx, "-early") {
 		k = pick(r, 1, 2, 3, 4) // right behind what the consumer takes
 		if ctx == "par-upstream-number-early" {
@@ -649,6 +655,12 @@ func genC05(r *rng, tier string) *Case {
 	case "mu-source-par":
 		body = "numbers(a).map(x->cost(0," + f("x") + ")).multiUse({s: l->l.sum(), n: l->l.size()}).s"
 		parallel = true
+	case "huge-sized-map-size":
+		body = "numbers(100000000000).map(x->" + f("x") + ").size()"
+	case "huge-sized-number-eval":
+		body = "numbers(100000000000).number((n,x)->" + f("x") + ").eval().size()"
+	case "huge-sized-iir-reverse":
+		body = "numbers(100000000000).iir(x->x, (x,l)->" + f("x") + ").reverse().first()"
 	case "merge-operand-number-early":
 		body = "numbers(a).number((n,x)->" + f("x") + ").merge(numbers(b), (p,q)->p<q).first()"
 	case "merge-operand2-iir-early":
